@@ -350,6 +350,7 @@ class ProgModel:
         if self.fin:
             # flush after finish: nothing is buffered, nothing reaches the wire (an awaited flush may raise
             # StreamClosedError when the connection is already gone; that is only logged)
+            self.e.labels.add("flush_after_finish")
             return
         self.body += chunk
         if self.method == "HEAD":
